@@ -93,8 +93,8 @@ class World:
         if parent is None:
             return ""
         if isinstance(parent, dict):
-            return parent.get("_id", "?")
-        return getattr(parent, "_id", "?")
+            return parent.get("_id", "?{}")
+        return getattr(parent, "_id", "?%r" % (parent,))
 
     # ---- engine construction ------------------------------------------------------
     def engine(self, cfg=None):
